@@ -61,9 +61,18 @@ std::string XmlNode::namespaceUri() const
     return reinterpret_cast<const char *>(mPimpl->mXmlNodePtr->ns->href);
 }
 
+std::string XmlNode::namespacePrefix() const
+{
+    if ((mPimpl->mXmlNodePtr->ns == nullptr) || (mPimpl->mXmlNodePtr->ns->prefix == nullptr)) {
+        return {};
+    }
+    return reinterpret_cast<const char *>(mPimpl->mXmlNodePtr->ns->prefix);
+}
+
 void XmlNode::addNamespaceDefinition(const std::string &uri, const std::string &prefix)
 {
-    xmlNsPtr nsPtr = xmlNewNs(mPimpl->mXmlNodePtr, reinterpret_cast<const xmlChar *>(uri.c_str()), reinterpret_cast<const xmlChar *>(prefix.c_str()));
+    // An empty prefix defines the default namespace.
+    xmlNsPtr nsPtr = xmlNewNs(mPimpl->mXmlNodePtr, reinterpret_cast<const xmlChar *>(uri.c_str()), prefix.empty() ? nullptr : reinterpret_cast<const xmlChar *>(prefix.c_str()));
     auto last = mPimpl->mXmlNodePtr->nsDef;
     while (last != nullptr) {
         last = last->next;
